@@ -37,5 +37,8 @@ pub fn tool_error(msg: &str) -> ! {
 
 /// Silence the default panic message (panics in code under test are data, caught and reported).
 pub fn quiet_panics() {
+  if std::env::var("VH_LOUD").is_ok() {
+    return;
+  }
   std::panic::set_hook(Box::new(|_| {}));
 }
